@@ -1,0 +1,7 @@
+//go:build !verif
+
+package frugal
+
+// verifSubjectID is a verification hook helper; it is compiled to nothing
+// unless the `verif` build tag is set.
+func verifSubjectID(subject string) uint64 { return 0 }
